@@ -46,7 +46,10 @@ pub fn classify_panic(p: &PanicInfo, csv: &str) -> Verdict {
 pub fn first_line(s: &str) -> String { s.lines().next().unwrap_or("").chars().take(300).collect() }
 
 /// (finding id, (location substring, message substring)) — each is a C05 finding seen from another property's check.
-pub const KNOWN_PANIC_SITES: &[(&str, (&str, &str))] = &[];
+pub const KNOWN_PANIC_SITES: &[(&str, (&str, &str))] = &[
+    // a share balance left at ~1e-28 by rounding (root cause R5) makes ACB / shares overflow
+    ("F-05e", ("rust_decimal", "Division overflowed")),
+];
 
 /// A split whose factor or its reciprocal has no finite decimal expansion (3-for-1, 3-for-2, 1-for-3, 7-for-3 ...).
 pub fn risky_split(r: &HRow) -> bool {
